@@ -771,6 +771,13 @@ def check_probe_skip(ctx):
                         return
                     if isinstance(s_, (ast.Continue, ast.Break, ast.Return)):
                         ok = any('allow_empty' in U(g) or 'allow_empty' in U(view.expand(g, gi)) for g, gi in guards)
+                        # a probe without tokens yields no candidate from a prefix/position/overlap index (the early
+                        # exits of find_candidates say so): stepping over it is no loss. Not so for the size index,
+                        # whose probe is a count and whose window at 0 is not empty.
+                        if not ok and 'size' not in U(c.func).lower():
+                            pa = U(c.args[0])
+                            empties = ('not %s' % pa, 'len(%s) == 0' % pa, '%s == []' % pa, 'not len(%s)' % pa)
+                            ok = any(U(g) in empties for g, _ in guards)
                         ctx.check('R-CAND/probe-skip', f, '%s before the probe' % type(s_).__name__.lower(), ok,
                                   'inside the loop over the probe rows a `%s` under `%s` runs before `%s`: the row is never '
                                   'probed although no allow_empty branch consumed it (a string shorter than q still has '
